@@ -454,7 +454,7 @@ pub async fn c09(seed: u64, thorough: bool) {
                     continue;
                 }
                 one_case(cfg, &segs, vec![], usize::MAX / 2, &mut st, true).await;
-                one_case(cfg, &segs, vec![Rd::Pending], 1, &mut st, false).await;
+                one_case(cfg, &segs, vec![Rd::Pending], 1, &mut st, true).await; // judged by the delivery-free spec too
                 if len >= 2 && len <= 6 && (thorough || (code + ci) % 5 == 0) {
                     // every composition of len into read sizes
                     for comp in 0..(1u32 << (len - 1)) {
